@@ -5,6 +5,7 @@ import (
 	"go/constant"
 	"go/token"
 	"go/types"
+	"reflect"
 	"sort"
 
 	"golang.org/x/tools/go/packages"
@@ -382,4 +383,82 @@ func mapStates(in []trieState, f func(trieState) []trieState) []trieState {
 		out = append(out, f(s)...)
 	}
 	return out
+}
+
+// scanResidualHash hashes Scan with its pure operator arms removed: what is left is the prologue (pending unit,
+// identifier/number arms), the literal/comment/EOF/newline arms and the epilogue — the parts the trie does not model.
+func scanResidualHash(pk *packages.Package, fd *ast.FuncDecl, tr *scanTrie) string {
+	if fd == nil || tr == nil {
+		return ""
+	}
+	info := pk.TypesInfo
+	n := &normalizer{info: info, pkg: pk.Types, locals: map[types.Object]int{}}
+	var walk func(s ast.Stmt)
+	skip := map[*ast.CaseClause]bool{}
+	ast.Inspect(fd.Body, func(m ast.Node) bool {
+		cc, ok := m.(*ast.CaseClause)
+		if !ok {
+			return true
+		}
+		pure := len(cc.List) > 0
+		for _, e := range cc.List {
+			r, ok := charLit(info, e)
+			if !ok || r < 0 || tr.Special[string(r)] {
+				pure = false
+				continue
+			}
+			if _, isOp := tr.Ops[string(r)]; !isOp {
+				pure = false
+			}
+		}
+		if pure {
+			skip[cc] = true
+		}
+		return true
+	})
+	_ = walk
+	// serialise statement by statement, replacing skipped clauses by a marker
+	var ser func(node ast.Node)
+	ser = func(node ast.Node) {
+		switch x := node.(type) {
+		case *ast.BlockStmt:
+			for _, s := range x.List {
+				ser(s)
+			}
+		case *ast.LabeledStmt:
+			n.b.WriteString("label;")
+			ser(x.Stmt)
+		case *ast.SwitchStmt:
+			n.b.WriteString("switch{")
+			if x.Init != nil {
+				n.node(reflect.ValueOf(x.Init))
+			}
+			if x.Tag != nil {
+				n.node(reflect.ValueOf(x.Tag))
+			}
+			for _, s := range x.Body.List {
+				cc := s.(*ast.CaseClause)
+				if skip[cc] {
+					n.b.WriteString("op-arm;")
+					continue
+				}
+				n.b.WriteString("case[")
+				for _, e := range cc.List {
+					n.node(reflect.ValueOf(e))
+					n.b.WriteString(",")
+				}
+				n.b.WriteString("]{")
+				for _, st := range cc.Body {
+					ser(st)
+				}
+				n.b.WriteString("}")
+			}
+			n.b.WriteString("}")
+		default:
+			n.node(reflect.ValueOf(node))
+			n.b.WriteString(";")
+		}
+	}
+	ser(fd.Body)
+	return hash8(n.b.String())
 }
